@@ -8,7 +8,8 @@ current position is what a decoder just created on exactly those bytes returns: 
 the options. The theorems relate the decoder object (`Fit.DecApi.run`, the model the driver executes against the real
 code) to that specification for **every** history, every byte stream, every option set and every factory.
 
-PROPERTY THEOREMS (audited by ./check): C07_decode_from_clean, C07_boundary_clean, C07_history_indep_partial,
+PROPERTY THEOREMS (audited by ./check): C07_decode_from_clean, C07_boundary_clean, C07_reset_is_new,
+C07_integrity_check_is_new, C07_history_indep_partial,
 C07_rejected_everywhere_partial, C07_full_fails, C07_witness_peek_past
 -/
 namespace Fit.C07
@@ -166,6 +167,27 @@ theorem C07_boundary_clean (a : Api) (op : Op) (ha : a.d.q.err = none) (h : ends
     | panic => cases hh
     | hang => cases hh
   | reset o b => exact ⟨rfl, rfl⟩
+
+/-- **`Reset` makes the decoder object a new one**, unconditionally: whatever it processed before — sequences decoded,
+peeks, failures, sticky errors, other options — after `Reset(r, opts...)` its whole state is that of `decoder.New(r, opts...)`
+(nothing leaks into the next reader: no definition, description, accumulated value, timestamp, CRC, error or option). -/
+theorem C07_reset_is_new (a : Api) (o : Opts) (bytes : List Nat) : (step a (.reset o bytes)).1 = Api.fresh o bytes := rfl
+
+/-- **`CheckIntegrity` (+ re-seek) on a live decoder makes it a new one on the same stream**, whatever it did before and
+whatever the check found (after the repair of F10 also when the check failed in the middle of the stream). -/
+theorem C07_integrity_check_is_new (a : Api) (ha : a.d.q.err = none) (hi : Inv a.d) (hw : IsBytes a.whole) :
+    (step a .checkIntegrity).1 = Api.fresh a.d.o a.whole := by
+  have hg := stepCheckIntegrity_good a ⟨hi, hw⟩
+  show (stepCheckIntegrity a).1 = _
+  unfold stepCheckIntegrity at hg ⊢
+  simp only [ha] at hg ⊢
+  rcases hc : ciLoop (fuelOf a.d) (a.n == 0) 0 { a.d with o := { a.d.o with chk := true } } with ⟨seq, r⟩
+  rw [hc] at hg
+  cases r with
+  | ok u => rfl
+  | err e => rfl
+  | panic => exact absurd rfl hg.1
+  | hang => exact absurd rfl hg.2.1
 
 /-- the outcomes of a run and of the specification agree wherever the specification demands something -/
 def Agree (o : Opts) (bytes : List Nat) (ops : List Op) : Prop :=
